@@ -27,6 +27,8 @@ func init() {
 			Trusted:     commonTrusted,
 		},
 		Mutants: []Mutant{
+			{Name: "content closure restores '.' from a save taken by the enclosing call (agent seed C07/2, reduced)", File: "eval.go", Old: "\t\t\tif expression != nil {\n\t\t\t\tcontext := st.context\n\t\t\t\tst.context = st.evalPrimaryExpressionGroup(expression)\n\t\t\t\tst.executeList(content)\n\t\t\t\tst.context = context\n\t\t\t} else {", New: "\t\t\tif expression != nil {\n\t\t\t\tst.context = st.evalPrimaryExpressionGroup(expression)\n\t\t\t\tst.executeList(content)\n\t\t\t\tst.context = mycontext\n\t\t\t} else {",
+				More: []Edit{{File: "eval.go", Old: "\tmycontent := st.content\n\tif content != nil {", New: "\tmycontent, mycontext := st.content, st.context\n\tif content != nil {"}}, Rule: "C07.ctx"},
 			{Name: "if with := forgets to pop its scope", File: "eval.go", Old: "\t\t\tif isLet {\n\t\t\t\tst.releaseScope()\n\t\t\t}\n\t\tcase NodeRange:", New: "\t\t\t_ = isLet\n\t\tcase NodeRange:", Rule: "C07.scope"},
 			{Name: "range pops its scope only when it ran at least once", File: "eval.go", Old: "\t\t\tcleanup()\n\t\t\tst.context = context\n\t\t\tif isLet {\n\t\t\t\tst.releaseScope()\n\t\t\t}", New: "\t\t\tcleanup()\n\t\t\tst.context = context\n\t\t\tif isLet && rangeReturn.IsValid() {\n\t\t\t\tst.releaseScope()\n\t\t\t}", Rule: "C07.scope"},
 			{Name: "range does not restore the context", File: "eval.go", Old: "\t\t\tcleanup()\n\t\t\tst.context = context\n", New: "\t\t\tcleanup()\n\t\t\t_ = context\n", Rule: "C07.ctx"},
